@@ -19,7 +19,7 @@ from valida.rules import Rule
 from valida.schema import Schema
 
 META = {
-    "rule": "every single rule (24 paths x 19 conditions x 4 casts incl. the declared-but-empty one), every ordered pair over a 14-rule pool (incl. cast-only rules), 113 schemas composed with add_schema (4 roots) and "
+    "rule": "every single rule (28 paths x 19 conditions x 4 casts incl. the declared-but-empty one), every ordered pair over a 14-rule pool (incl. cast-only rules), 113 schemas composed with add_schema (4 roots) and "
             "every ordered triple over a 6-rule pool; a case is one schema, its rules individually and as a whole "
             "serialised -> json text -> rebuilt, compared on every probe document; non-trivial = rebuilt and "
             "compared on all documents with at least one rule tested on some document",
@@ -36,7 +36,9 @@ PATHS = [(), (("prim", "a"),), (("prim", "a"), ("prim", "b")), (("prim", 0),), (
          (M,), (Ls,), (MOL,), (("prim", "a"), Ls), (M, M), (gen.MAPS[0],), (gen.MAPS[2],), (gen.MAPS[5],),
          (gen.MAPS[7],), (gen.MAPS[8],), (gen.LISTS[0],), (gen.LISTS[4],), (gen.LISTS[6],), (gen.MOLS[6],),
          (gen.MOLS[2], ("prim", "a")), (("map", ("lit", "a"), None, "L"),), (("prim", "m"), ("prim", "x")),
-         (("prim", "lst"), gen.LISTS[2])]
+         (("prim", "lst"), gen.LISTS[2]),
+         # all-string concrete paths whose keys look like numbers, contain the usual delimiters or are empty
+         (("prim", "a"), ("prim", "0")), (("prim", "2024"),), (("prim", "a/b"), ("prim", "1.5")), (("prim", ""), ("prim", "b"))]
 PA = ("$path", P((("prim", "b"),)))
 CONDS = [
     L("ValueDataType", "equal_to", int), L("ValueDataType", "in_", [bool, str]), L("Value", "equal_to", 3),
@@ -103,6 +105,10 @@ def schemas(tier):
         out.append(("schema", (T.rule(POOL12[1][1], POOL12[1][2], POOL12[1][3], doc), POOL12[4])))
     out += composed()
     out += [("schema", pair) for pair in itertools.product(POOL12, repeat=2)]
+    # three rules of equal depth, two of them on one path with a rule on another path in between (a, b, a)
+    ra = [r for r in rule_terms() if r[1][1] == (("prim", "a"),)][:6:2]
+    rb = [r for r in rule_terms() if r[1][1] == (("prim", 0),)][:2]
+    out += [("schema", (x, y, z)) for x in ra for y in rb for z in ra if x != z]
     if tier == "thorough":
         out += [("schema", tri) for tri in itertools.product(POOL12[:6], repeat=3)]
     return out
